@@ -495,7 +495,7 @@ func divergentCase(c *vlib.Ctx, i int, r *vlib.Rand) {
 		key := "FileConfig.SetValues:spurious-key-appeared" + generic
 		what := fmt.Sprintf("key %s is in the file after SetValues; it was neither there just before nor written", quoteClip(k, 60))
 		switch {
-		case isExcluded(k):
+		case isExcluded(k) && newMap[k] == input[k]:
 			key = "FileConfig.SetValues:excluded-key-written"
 		case everInFile[k]:
 			key = "FileConfig.SetValues:other-key-changed/deleted-key-restored"
